@@ -26,6 +26,7 @@ EXTENDS Integers, Sequences, FiniteSets
 \*   "leading-list-first-child" process_section(): what follows the leading list of an item is inserted as
 \*                             the first child of the merged item instead of after its children
 \*   "empty-leading-list"      process_section(): a leading list that left no node behind is not noticed
+\*   "append-flat"             append_blocks(): headings after the leading list of an item are not nested by level
 CONSTANT Slip
 
 None == -1
@@ -51,18 +52,20 @@ Min(S) == CHOOSE x \in S : \A y \in S : x <= y
 \* first_header(lo..hi): position of the first heading in [lo, hi), or hi
 FirstHeader(bs, lo, hi) == LET hs == {i \in lo..(hi - 1) : bs[i].k = "H"} IN IF hs = {} THEN hi ELSE Min(hs)
 
-RECURSIVE ProcessBlocks(_, _, _, _), Sections(_, _, _, _, _), ProcessSection(_, _, _, _), SectionBlock(_, _),
+RECURSIVE ProcessBlocks(_, _, _, _), PlaceBlocks(_, _, _, _), Sections(_, _, _, _, _), ProcessSection(_, _, _, _), SectionBlock(_, _),
           Items(_, _, _), Block(_, _), Blocks(_, _, _, _), AppendBlocks(_, _, _, _), AppendFrom(_, _, _, _, _), LastSibling(_, _)
 
 \* the blocks lo..hi-1 one after the other through block()
 Blocks(st, bs, lo, hi) == IF lo >= hi THEN st ELSE Blocks(Block(st, bs[lo]), bs, lo + 1, hi)
 
-\* process_blocks(lo..hi)
-ProcessBlocks(st, bs, lo, hi) ==
-    IF lo >= hi THEN st
-    ELSE LET fh == FirstHeader(bs, lo, hi)
-             pre == Blocks(SetIns(st, TRUE), bs, lo, fh)
-         IN  IF fh = hi THEN pre ELSE Sections(pre, bs, fh, hi, bs[fh].l)
+\* place_blocks(lo..hi): the blocks before the first heading, then the sections
+PlaceBlocks(st, bs, lo, hi) ==
+    LET fh == FirstHeader(bs, lo, hi)
+        pre == Blocks(st, bs, lo, fh)
+    IN  IF fh = hi THEN pre ELSE Sections(pre, bs, fh, hi, bs[fh].l)
+
+\* process_blocks(lo..hi): the blocks become the children of the current node
+ProcessBlocks(st, bs, lo, hi) == IF lo >= hi THEN st ELSE PlaceBlocks(SetIns(st, TRUE), bs, lo, hi)
 
 \* ranges(positions, end): p is a heading of level <= L, its section runs to the next such heading
 Sections(st, bs, p, hi, L) ==
@@ -123,9 +126,11 @@ Block(st, b) ==
       [] OTHER -> [st EXCEPT !.ns = Append(@, Nd("PANIC", None, FALSE))]    \* a heading never reaches block()
 
 \* append_blocks(lo..hi): like process_blocks, but continuing the sibling chain of the current node
+\* (slip "append-flat": every heading after the leading list becomes a flat sibling, whatever its level)
 AppendBlocks(st, bs, lo, hi) ==
     IF lo >= hi THEN st
-    ELSE AppendFrom(st, bs, lo, hi, FirstHeader(bs, lo, hi))
+    ELSE IF "append-flat" \in Slip THEN AppendFrom(st, bs, lo, hi, FirstHeader(bs, lo, hi))
+    ELSE PlaceBlocks(SetIns(st, FALSE), bs, lo, hi)
 AppendFrom(st, bs, i, hi, fh) ==
     IF i >= hi THEN st
     ELSE LET s0 == SetIns(st, FALSE)
@@ -148,48 +153,85 @@ WellLinked(ns) ==
     /\ \A i \in Ids(ns) \ {0} : Cardinality(Referrers(ns, i)) = 1 /\ At(ns, i).prev \in Referrers(ns, i)
     /\ Referrers(ns, 0) = {}
 
-\* pre-order walk from node id: <<kind, text?, depth in lists and quotes>>
-RECURSIVE WalkSeq(_, _, _)
-WalkSeq(ns, id, d) ==
+\* pre-order walk from node id: <<kind, text?, depth in lists and quotes, depth in sections since the container>>
+RECURSIVE WalkSeq(_, _, _, _)
+WalkSeq(ns, id, d, sd) ==
     IF id = None THEN <<>>
     ELSE LET n == At(ns, id)
-             inner == IF n.kind \in {"BL", "OL", "Q"} THEN d + 1 ELSE d
-         IN  <<<<n.kind, n.txt, d>>>> \o WalkSeq(ns, n.child, inner) \o WalkSeq(ns, n.next, d)
+             below == IF n.kind \in {"BL", "OL", "Q"} THEN WalkSeq(ns, n.child, d + 1, 0)
+                      ELSE IF n.kind = "S" THEN WalkSeq(ns, n.child, d, sd + 1)
+                      ELSE <<>>
+         IN  <<<<n.kind, n.txt, d, sd>>>> \o below \o WalkSeq(ns, n.next, d, sd)
 
 \* the same sequence read off the document, with the documented rules: a paragraph or heading that is the
 \* first block of an item is the item's text (a section), other paragraphs are leaves, a heading is a section;
 \* an item that starts with another block gets an empty text first; a list of empty items carries nothing;
-\* an item that starts with a list is merged into the enclosing list (the inner list adds no node and no depth)
-RECURSIVE DocSeq(_, _), ItemsSeq(_, _, _), ItemSeq(_, _), Rest(_, _, _)
-Tag(b, d) == CASE b.k = "H" -> <<"S", TRUE, d>>
-               [] b.k = "P" -> IF IsRef(b) THEN <<"R", FALSE, d>> ELSE <<"L", TRUE, d>>
-               [] b.k = "Code" -> <<"Raw", FALSE, d>>
-               [] b.k = "Rule" -> <<"HR", FALSE, d>>
-               [] b.k = "Tbl" -> <<"T", FALSE, d>>
-               [] OTHER -> <<b.k, FALSE, d>>
-Carries(b) == ~IsList(b) \/ \E i \in 1..Len(b.items) : ItemSeq(b.items[i], 0) # <<>>
+\* an item that starts with a list is merged into the enclosing list (the inner list adds no node and no depth).
+\* Section depth: the blocks of one container (the document, the content of a quote, what follows the text of
+\* an item) form an outline of their own; when its heading levels are well nested (none above the first, none
+\* skipping a level) a heading of level l lies l - first sections deep and every other block lies directly
+\* under the heading before it.
+RECURSIVE DocSeq(_, _), ItemsSeq(_, _, _), ItemSeq(_, _), Rest(_, _, _, _, _)
+Tag(b, d, sd) == CASE b.k = "H" -> <<"S", TRUE, d, sd>>
+                   [] b.k = "P" -> IF IsRef(b) THEN <<"R", FALSE, d, sd>> ELSE <<"L", TRUE, d, sd>>
+                   [] b.k = "Code" -> <<"Raw", FALSE, d, sd>>
+                   [] b.k = "Rule" -> <<"HR", FALSE, d, sd>>
+                   [] b.k = "Tbl" -> <<"T", FALSE, d, sd>>
+                   [] OTHER -> <<b.k, FALSE, d, sd>>
 
-Rest(bs, i, d) ==
+Max(S) == CHOOSE x \in S : \A y \in S : x >= y
+\* section depth of block i of the container sequence that starts at i0 with base depth d0
+SDepth(bs, i0, i, d0) ==
+    LET hs == {j \in i0..Len(bs) : bs[j].k = "H"}
+        before == {j \in hs : j < i}
+        first == bs[Min(hs)].l
+    IN  IF bs[i].k = "H" THEN d0 + (bs[i].l - first)
+        ELSE IF before = {} THEN d0
+        ELSE d0 + (bs[Max(before)].l - first) + 1
+
+Rest(bs, i0, i, d, d0) ==
     IF i > Len(bs) THEN <<>>
-    ELSE LET b == bs[i] IN
-         (IF b.k = "Q" THEN <<Tag(b, d)>> \o DocSeq(b.c, d + 1)
-          ELSE IF IsList(b) THEN (IF \A j \in 1..Len(b.items) : b.items[j] = <<>> THEN <<>>
-                                   ELSE <<Tag(b, d)>> \o ItemsSeq(b.items, 1, d + 1))
-          ELSE <<Tag(b, d)>>)
-         \o Rest(bs, i + 1, d)
-DocSeq(bs, d) == Rest(bs, 1, d)
+    ELSE LET b == bs[i]
+             t == Tag(b, d, SDepth(bs, i0, i, d0))
+         IN  (IF b.k = "Q" THEN <<t>> \o DocSeq(b.c, d + 1)
+              ELSE IF IsList(b) THEN (IF \A j \in 1..Len(b.items) : b.items[j] = <<>> THEN <<>>
+                                       ELSE <<t>> \o ItemsSeq(b.items, 1, d + 1))
+              ELSE <<t>>)
+             \o Rest(bs, i0, i + 1, d, d0)
+DocSeq(bs, d) == Rest(bs, 1, 1, d, 0)
 ItemsSeq(items, i, d) == IF i > Len(items) THEN <<>> ELSE ItemSeq(items[i], d) \o ItemsSeq(items, i + 1, d)
-\* one item at list depth d (its blocks stand at depth d)
+\* one item at list depth d (its blocks stand at depth d, one section deep: under the item's text)
 ItemSeq(it, d) ==
     IF it = <<>> THEN <<>>
-    ELSE IF it[1].k \in {"P", "H"} THEN <<<<"S", TRUE, d>>>> \o Rest(it, 2, d)
+    ELSE IF it[1].k \in {"P", "H"} THEN <<<<"S", TRUE, d, 0>>>> \o Rest(it, 2, 2, d, 1)
     ELSE IF IsList(it[1])
          THEN LET inner == ItemsSeq(it[1].items, 1, d)
-              IN  IF inner = <<>> THEN ItemSeq(SubSeq(it, 2, Len(it)), d) ELSE inner \o Rest(it, 2, d)
-    ELSE <<<<"S", FALSE, d>>>> \o Rest(it, 1, d)
+              IN  IF inner = <<>> THEN ItemSeq(SubSeq(it, 2, Len(it)), d) ELSE inner \o Rest(it, 2, 2, d, 1)
+    ELSE <<<<"S", FALSE, d, 0>>>> \o Rest(it, 1, 1, d, 1)
+
+\* the heading levels of every container are well nested
+RECURSIVE AllWN(_, _), ItemWN(_)
+SeqWN(bs, i0) ==
+    LET hs == {j \in i0..Len(bs) : bs[j].k = "H"}
+    IN  \A j \in hs : /\ bs[j].l >= bs[Min(hs)].l
+                       /\ LET before == {k \in hs : k < j} IN (before # {} => bs[j].l <= bs[Max(before)].l + 1)
+AllWN(bs, i0) ==
+    /\ SeqWN(bs, i0)
+    /\ \A i \in i0..Len(bs) : /\ (bs[i].k = "Q" => AllWN(bs[i].c, 1))
+                               /\ (IsList(bs[i]) => \A j \in 1..Len(bs[i].items) : ItemWN(bs[i].items[j]))
+ItemWN(it) ==
+    IF it = <<>> THEN TRUE
+    ELSE IF it[1].k \in {"P", "H"} THEN AllWN(it, 2)
+    ELSE IF IsList(it[1])
+         THEN /\ \A j \in 1..Len(it[1].items) : ItemWN(it[1].items[j])
+              /\ IF ItemsSeq(it[1].items, 1, 0) = <<>> THEN ItemWN(SubSeq(it, 2, Len(it))) ELSE AllWN(it, 2)
+    ELSE AllWN(it, 1)
+
+NoSD(w) == [i \in 1..Len(w) |-> <<w[i][1], w[i][2], w[i][3]>>]
 
 BuiltAsDocumented(doc) ==
     LET ns == Build(doc)
     IN  /\ WellLinked(ns)
-        /\ WalkSeq(ns, At(ns, 0).child, 0) = DocSeq(doc, 0)
+        /\ LET w == WalkSeq(ns, At(ns, 0).child, 0, 0) d == DocSeq(doc, 0)
+           IN  IF AllWN(doc, 1) THEN w = d ELSE NoSD(w) = NoSD(d)
 =============================================================================
